@@ -1,4 +1,5 @@
 import QmiModel.Lemmas.C07Snap
+import QmiModel.Lemmas.C08Pend
 /-! C07: after an unsubscribe has taken effect, the receiver only gets items of snapshots taken before. -/
 namespace QmiModel.PubSub
 
@@ -85,5 +86,249 @@ theorem microStep_shape {s s' : State} {th : Th} {ch ch2 : Nat} {op : MOp} {rest
     | exact ProgShape.push _ (handleReplyStep_plain ‹handleReplyStep _ _ _ = some _›)
     | (split <;> first | exact ProgShape.push [] plainOps_nil | exact ProgShape.push [_] (by simp [plainOps, MOp.isEnd, MOp.isSubAdd]))
     | skip
+
+
+theorem progTag_append_ne_nil (x : List MOp) {rest : List MOp} (h : rest ≠ []) : progTag (x ++ rest) = progTag rest := by
+  unfold progTag
+  rw [List.getLast?_append]
+  cases hr : rest.getLast? with
+  | none => simp [List.getLast?_eq_none_iff] at hr; exact absurd hr h
+  | some y => simp
+
+theorem progTag_plain {x : List MOp} (h : plainOps x) : progTag x = .mk 0 := by
+  unfold progTag
+  cases hx : x.getLast? with
+  | none => rfl
+  | some y =>
+    have hm : y ∈ x := List.mem_of_getLast? hx
+    have := (h y hm).1
+    cases y <;> simp_all [MOp.isEnd]
+
+theorem progTag_cons_ne_nil (op : MOp) {rest : List MOp} (h : rest ≠ []) : progTag (op :: rest) = progTag rest :=
+  progTag_append_ne_nil [op] h
+
+/-- the tag of a program is the tag it had before the step, unless the call has ended -/
+theorem progTag_shape {op : MOp} {rest pr : List MOp} (h : ProgShape rest pr) :
+    progTag pr = progTag (op :: rest) ∨ progTag pr = .mk 0 := by
+  cases h with
+  | push x hx =>
+    by_cases hr : rest = []
+    · subst hr; right; simpa using progTag_plain hx
+    · left; rw [progTag_append_ne_nil x hr, progTag_cons_ne_nil op hr]
+  | raised e =>
+    by_cases hr : rest = []
+    · subst hr; right; simp [progTag]
+    · left; rw [progTag_cons_ne_nil op hr]; simp [progTag]
+  | ended => right; rfl
+
+/-- an operation that subscribes receiver `r` to key `k` only occurs in the program of a `subscribe(k, r)` call -/
+def TagInv (s : State) : Prop :=
+  ∀ th k r op, op ∈ s.prog th → op.isSubAdd k r = true → progTag (s.prog th) = .sub k r
+
+theorem tagInv_shape {k : Key} {r : Rcv} {op : MOp} {rest pr : List MOp} (hsh : ProgShape rest pr)
+    (h : ∀ op', op' ∈ op :: rest → op'.isSubAdd k r = true → progTag (op :: rest) = .sub k r) :
+    ∀ op', op' ∈ pr → op'.isSubAdd k r = true → progTag pr = .sub k r := by
+  intro op' hm ha
+  cases hsh with
+  | push x hx =>
+    rw [List.mem_append] at hm
+    rcases hm with hm | hm
+    · have := (hx op' hm).2 k r; rw [this] at ha; simp at ha
+    · have hr : rest ≠ [] := by intro e; subst e; simp at hm
+      rw [progTag_append_ne_nil x hr, ← progTag_cons_ne_nil op hr]
+      exact h op' (List.mem_cons_of_mem _ hm) ha
+  | raised e =>
+    simp only [List.mem_singleton] at hm
+    subst hm; simp [MOp.isSubAdd] at ha
+  | ended => simp at hm
+
+theorem plainOps_dispatch (src : Peer) (m : Msg) : plainOps (dispatch src m) := by
+  cases m with
+  | subReq id ob sg b => cases b <;> simp [dispatch, plainOps, MOp.isEnd, MOp.isSubAdd]
+  | _ => simp [dispatch, plainOps, MOp.isEnd, MOp.isSubAdd]
+
+theorem tagInv_of_plain {k : Key} {r : Rcv} {pr : List MOp} (h : plainOps pr) :
+    ∀ op', op' ∈ pr → op'.isSubAdd k r = true → progTag pr = .sub k r := by
+  intro op' hm ha
+  have := (h op' hm).2 k r; rw [this] at ha; simp at ha
+
+theorem tagInv_beginProg (c : Ctx) (t : Tid) (n : Nat) (o : Op) (k : Key) (r : Rcv) :
+    ∀ op', op' ∈ beginProg c t n o → op'.isSubAdd k r = true → progTag (beginProg c t n o) = .sub k r := by
+  intro op' hm ha
+  cases o <;> simp only [beginProg] at hm ⊢ <;> (try split at hm) <;> simp at hm
+  all_goals (try (rcases hm with rfl | rfl | rfl | rfl <;> simp [MOp.isSubAdd] at ha))
+  all_goals (try (rcases hm with rfl | rfl | rfl <;> simp [MOp.isSubAdd] at ha))
+  all_goals (try (rcases hm with rfl | rfl <;> simp [MOp.isSubAdd] at ha))
+  all_goals (try (obtain ⟨rfl, rfl⟩ := ha))
+  all_goals (try (simp_all [progTag]))
+
+
+/-- what the actions other than `micro` do to the programs: they start a program on an idle thread -/
+theorem step_nonmicro_prog {s s' : State} {a : Act} {o : Out} (ha : ∀ th ch ch2, a ≠ .micro th ch ch2)
+    (hs : step s a = some (s', o)) (th' : Th) :
+    s'.prog th' = s.prog th' ∨
+    (s.prog th' = [] ∧ (plainOps (s'.prog th') ∨
+        ∃ c t n op, a = .begin c t op ∧ th' = .user c t ∧ s'.prog th' = beginProg c t n op)) := by
+  cases a with
+  | micro th ch ch2 => exact absurd rfl (ha th ch ch2)
+  | begin c t op =>
+    simp only [step] at hs
+    split at hs
+    · rename_i hc
+      cases op <;> simp at hs <;> obtain ⟨rfl, -⟩ := hs <;> simp only [setProg_prog, State.setProg, upd] <;>
+        (split
+         · rename_i e; subst e; right; exact ⟨hc.2, Or.inr ⟨_, _, _, _, rfl, rfl, rfl⟩⟩
+         · left; rfl)
+    · simp at hs
+  | cb c ok =>
+    simp only [step] at hs
+    split at hs
+    · rename_i hc
+      split at hs
+      · simp at hs
+      · split at hs
+        · simp at hs
+        · rename_i heq
+          obtain ⟨-, hpx, -, -, -, hpr⟩ := smSendStep_frame heq
+          simp only [Option.some.injEq, Prod.mk.injEq] at hs
+          obtain ⟨rfl, -⟩ := hs
+          simp only [setProg_prog, hpx, setCtx_prog]
+          split
+          · rename_i e; subst e; right
+            refine ⟨hc.2, Or.inl ?_⟩
+            rcases hpr with e | e <;> rw [e]
+            · exact plainOps_nil
+            · exact plainOps_onSendFail _
+          · left; rfl
+      · split at hs
+        all_goals
+          simp at hs; obtain ⟨rfl, -⟩ := hs
+          simp only [setProg_prog, setCtx_prog]
+          split
+          · rename_i e; subst e; right; exact ⟨hc.2, Or.inl (by simp [plainOps, MOp.isEnd, MOp.isSubAdd])⟩
+          · left; rfl
+    · simp at hs
+  | arrive cn cli =>
+    simp only [step] at hs
+    split at hs
+    · rename_i hc
+      split at hs
+      · simp at hs
+      · simp only [Option.some.injEq, Prod.mk.injEq] at hs
+        obtain ⟨rfl, -⟩ := hs
+        simp only [State.setProg, upd]
+        split
+        · rename_i e; subst e; right; exact ⟨hc.2.2.1, Or.inl (plainOps_dispatch _ _)⟩
+        · left; rfl
+    · simp at hs
+  | eof cn cli =>
+    simp only [step] at hs
+    split at hs
+    · rename_i hc
+      simp only [Option.some.injEq, Prod.mk.injEq] at hs
+      obtain ⟨rfl, -⟩ := hs
+      simp only [setProg_prog]
+      split
+      · rename_i e; subst e; right; exact ⟨hc.2.2.1, Or.inl (by simp [plainOps, MOp.isEnd, MOp.isSubAdd])⟩
+      · left; rfl
+    · simp at hs
+  | connect a p =>
+    simp only [step] at hs
+    split at hs
+    · simp only [Option.some.injEq, Prod.mk.injEq] at hs
+      obtain ⟨rfl, -⟩ := hs
+      left; simp
+    · simp at hs
+  | stop c =>
+    simp only [step] at hs
+    split at hs
+    · simp only [Option.some.injEq, Prod.mk.injEq] at hs
+      obtain ⟨rfl, -⟩ := hs
+      left; simp
+    · simp at hs
+
+theorem tagInv_step {s s' : State} {a : Act} {o : Out} (h : TagInv s) (hs : step s a = some (s', o)) : TagInv s' := by
+  by_cases ha : ∃ th ch ch2, a = .micro th ch ch2
+  · obtain ⟨th, ch, ch2, rfl⟩ := ha
+    obtain ⟨-, op, rest, hp, hm⟩ := step_micro_inv hs
+    have hf := microStep_frame hm
+    have hsh := microStep_shape hm
+    intro th' k r op' hm' ha'
+    by_cases e : th' = th
+    · subst e
+      exact tagInv_shape hsh (fun op'' h1 h2 => by have := h th' k r op'' (hp ▸ h1) h2; rw [hp] at this; exact this) op' hm' ha'
+    · rw [hf.prog_other th' e] at hm' ⊢
+      exact h th' k r op' hm' ha'
+  · have ha' : ∀ th ch ch2, a ≠ .micro th ch ch2 := fun th ch ch2 e => ha ⟨th, ch, ch2, e⟩
+    intro th' k r op' hm' hx
+    rcases step_nonmicro_prog ha' hs th' with e | ⟨-, hpl | ⟨c, t, n, op, -, -, e⟩⟩
+    · rw [e] at hm' ⊢; exact h th' k r op' hm' hx
+    · exact tagInv_of_plain hpl op' hm' hx
+    · rw [e] at hm' ⊢; exact tagInv_beginProg c t n op k r op' hm' hx
+
+theorem tagInv_reach {s : State} (h : Reach s) : TagInv s := by
+  induction h with
+  | init => intro th k r op hm; simp [State.init] at hm
+  | step _ hs ih => exact tagInv_step ih hs
+
+
+/-- receiver `r` is neither a local subscriber of key `k` nor waiting in the pending request of `k` -/
+def Absent (cs : CtxSt) (k : Key) (r : Rcv) : Prop :=
+  r ∉ cs.lsubs k ∧ ∀ pid po, cs.byKey k = some pid → cs.pobj pid = some po → r ∉ po.rcvs
+
+theorem handleReplyStep_absent {cs cs' : CtxSt} {id : ReqId} {ok : Bool} {more : List MOp} {o : Out} {k : Key} {r : Rcv}
+    (hp : PendOk cs) (ha : Absent cs k r) (hs : handleReplyStep cs id ok = some (cs', more, o)) : Absent cs' k r := by
+  obtain ⟨ha1, ha2⟩ := ha
+  have a1 := hp.byId_some
+  have a2 := hp.byId_key
+  have a3 := hp.byId_inj
+  have a4 := hp.fresh
+  have a5 := hp.byKey_some
+  have a6 := hp.byKey_obj
+  have mu := @mem_uni
+  unfold handleReplyStep at hs
+  split at hs
+  · simp at hs
+  · split at hs
+    · simp at hs
+    · split at hs
+      · simp only [Option.some.injEq, Prod.mk.injEq] at hs
+        obtain ⟨rfl, -, -⟩ := hs
+        constructor <;> (try intros) <;> simp only [upd] at * <;> grind
+      · split at hs
+        · simp only [Option.some.injEq, Prod.mk.injEq] at hs
+          obtain ⟨rfl, -, -⟩ := hs
+          constructor <;> (try intros) <;> simp only [upd] at * <;> grind
+        · simp only [Option.some.injEq, Prod.mk.injEq] at hs
+          obtain ⟨rfl, -, -⟩ := hs
+          constructor <;> (try intros) <;> simp only [upd] at * <;> grind
+
+set_option maxHeartbeats 2000000 in
+/-- no micro step other than the subscribe steps for `(k, r)` themselves makes `r` a subscriber of `k` -/
+theorem absent_micro {s s' : State} {th : Th} {ch ch2 : Nat} {op : MOp} {rest : List MOp} {o : Out} {k : Key} {r : Rcv}
+    (hp : PendOk (s.ctx th.ctx)) (hop : op.isSubAdd k r = false) (ha : Absent (s.ctx th.ctx) k r)
+    (hs : microStep s th ch ch2 op rest = some (s', o)) : Absent (s'.ctx th.ctx) k r := by
+  have ha' := ha
+  obtain ⟨ha1, ha2⟩ := ha
+  have a1 := hp.byId_some
+  have a2 := hp.byId_key
+  have a3 := hp.byId_inj
+  have a4 := hp.fresh
+  have a5 := hp.byKey_some
+  have a6 := hp.byKey_obj
+  have m1 := @mem_ins
+  have m2 := @List.mem_of_mem_erase
+  cases op <;> simp only [microStep] at hs
+  all_goals (try (split at hs))
+  all_goals (try (split at hs))
+  all_goals (try (split at hs))
+  all_goals (try (split at hs))
+  all_goals (try (simp at hs))
+  all_goals (try (obtain ⟨rfl, -⟩ := hs))
+  all_goals (simp only [setProg_ctx, setCtx_ctx, State.setProg, if_true])
+  all_goals (try exact ha')
+  all_goals (try exact handleReplyStep_absent hp ha' ‹handleReplyStep _ _ _ = some _›)
+  all_goals (try (simp only [MOp.isSubAdd, Bool.and_eq_false_iff, decide_eq_false_iff_not] at hop))
+  all_goals (try (constructor <;> (try intros) <;> simp only [upd, peerRemovedStep] at * <;> grind))
 
 end QmiModel.PubSub
